@@ -7,6 +7,20 @@ HERE = os.path.dirname(os.path.dirname(os.path.abspath(__file__)))
 BASELINE = "cd /repo && /venv/bin/python -m pytest -ra -q -p no:cacheprovider --timeout=900 --continue-on-collection-errors"
 
 CHECKS = {
+    'C03': dict(
+        text='Lean theorems on a model of NameAssigner (reservation scopes, cost model, generator table, the must-rename rule): for every '
+             'set of bindings, two bindings whose reservation scopes share a namespace never end up with the same name when one of them '
+             'was renamed; new names come from the generator table, which (decide, regenerated from the running name_filter) contains no '
+             'keyword or builtin; pinned bindings keep their names. Tie: the model is fed the binding structures the real scope analysis '
+             'produced and must choose exactly the names the real rename() chose. The remaining half of the property — that the scope '
+             'analysis puts every namespace on the interpreter\'s lookup path into the reservation scope — is decided by an '
+             'alpha-equivalence oracle on the real code built on a scoping specification validated against symtable, over an exhaustive '
+             'outer-scope x binding-form x reference-position enumeration (6337 programs) and random modules.',
+        note='PARTIAL: mapper/bind_names/resolve_names are not modelled in Lean (path inclusion T03.3 and coarsening T03.4 are not '
+             'theorems); for that half the check is an exploration with an independent oracle. Trusted: tools/rename_dump.py (derives '
+             'reference chains and the documented in-place rule from the annotated tree), tools/scopes.py (scoping spec), tools/alpha.py.',
+        technique='Lean 4 proof (loop invariant over the assignment order) + model/implementation correspondence on dumped bindings + symtable-validated alpha-equivalence oracle',
+        ref='§6 C03'),
     'C12': dict(
         text='Lean theorems: (a) the inventory of eval/exec/compile/__import__/open/literal_eval call sites regenerated from the source '
              'equals the modelled one; (b) for every string, quote character and safe-mode flag, quote + MiniString body + quote is '
